@@ -264,14 +264,23 @@ def thresholds(ctx, report, folder):
     report.covered(fx)
     loops = [n for n in walk_no_nested(fx.node) if isinstance(n, ast.For)]
     st = [n for n in walk_no_nested(fx.node) if isinstance(n, ast.Assign) and src(n.targets[0]).endswith(".end")]
-    if len(st) != 1:
-        raise AnalysisError("fix_last_captions_without_ending: default-end store not unique")
-    ev = SymEvaluator(ctx.index, folder)
-    tgt = st[0].targets[0].value.id
-    p = _Path({tgt: Param("c")}, [])
-    (pp, v), = ev._eval(st[0].value, p, fx)
-    check_affine(report, "R-AFFINE", (fx, st[0]), "an uncleared final caption lasts four seconds", v,
-                 {"$c.start": 1, "": 4 * 10**6}, {"$c.start", "$c.end"}, "3")
+    # the symbolic form of the default end (for ALL starts) when the store has the recognised shape; the clause itself is
+    # decided below by folding read() on prepared captions ("final"), whatever the routine looks like
+    try:
+        if len(st) != 1 or not isinstance(st[0].targets[0].value, ast.Name):
+            raise AnalysisError("default-end store not unique")
+        ev = SymEvaluator(ctx.index, folder)
+        tgt = st[0].targets[0].value.id
+        p = _Path({tgt: Param("c")}, [])
+        outs = ev._eval(resolve_local(fx, st[0].value, index=ctx.index), p, fx)
+        if len(outs) != 1:
+            raise AnalysisError("default end has several symbolic outcomes")
+        (pp, v), = outs
+        check_affine(report, "R-AFFINE", (fx, st[0]), "an uncleared final caption lasts four seconds", v,
+                     {"$c.start": 1, "": 4 * 10**6}, {"$c.start", "$c.end"}, "3")
+    except AnalysisError as e:
+        report.info("R-AFFINE", fx, "an uncleared final caption lasts four seconds (symbolic form)",
+                    {"not_recognised": str(e), "decided_by": "the fold of read() on prepared captions (R-LOOP 'final', below)"}, "3")
     from . import scc_read_fold
     scc_read_fold.run(ctx, report, {
         "flash": ("R-THRESHOLD", "3", "displayed duration in (0, 0.05 s) is a flash cue: read() raises CaptionReadTimingError "
